@@ -123,6 +123,8 @@ def builtin(it, name):
 
     def b_isinstance(v, ty):
         tys = ty if isinstance(ty, tuple) else (ty,)
+        if hasattr(v, "abs_isinstance"):
+            return v.abs_isinstance([_unproxy(t) for t in tys])
         for t in tys:
             t = _unproxy(t)
             if isinstance(t, type):
@@ -216,6 +218,8 @@ def builtin(it, name):
             raise Undecided("sorted() with abstract keys")
         if all(num(x) or isinstance(x, (str, tuple)) for x in xs):
             return sorted(xs, reverse=reverse)
+        if xs and all(isinstance(x, OrderVal) and not x.nan for x in xs) and len({x.rep for x in xs}) == len(xs):
+            return sorted(xs, key=lambda x: x.rep, reverse=reverse)          # distinct order positions: sorted by position
         raise Undecided("sorted() of abstract values")
 
     def b_next(itr, *default):
@@ -319,6 +323,26 @@ class RowLabel:
         return f"<label of row {self.i}>"
 
 
+class LabelSel:
+    """index[mask] of an index whose labels are not literal: the labels of the selected rows.  Used as a row key it addresses every row
+    that carries one of them -- the selected rows only when the labels cannot repeat."""
+
+    def __init__(self, n, mask, kind):
+        self.n, self.mask, self.kind = n, mask, kind
+        self.values = self
+
+    def as_row_mask(self, table_n, table_kind, what):
+        if self.n != table_n or self.kind != table_kind:
+            raise Undecided(f"{what}: row labels taken from another table's index")
+        if self.kind == "any":
+            raise Raised("IndexMisalignment", f"{what} by the labels of the rows a mask selects (index[mask]) on a table whose labels may repeat: "
+                         "every row sharing a label with a selected row is addressed too")
+        return self.mask
+
+    def __repr__(self):
+        return "<labels of masked rows>"
+
+
 class IndexVals:
     """DataFrame.index: only positional access to single labels is modelled"""
 
@@ -338,6 +362,8 @@ class IndexVals:
             r = Vec([l for l, m in zip(self.labels, k.v) if m])
             r.exact = True
             return r
+        if self.labels is None and isinstance(k, Vec) and len(k.v) == self.n:
+            return LabelSel(self.n, k, getattr(self, "kind", "any"))          # the labels of the rows a mask selects
         return Opaque("index[]")
 
     def abs_len(self):
@@ -383,6 +409,15 @@ class IndexVals:
         if self.labels is None:
             return Opaque("is_unique")
         return len(set(self.labels)) == len(self.labels)
+
+    @property
+    def is_monotonic_increasing(self):
+        if self.labels is None:
+            return Opaque("is_monotonic_increasing")
+        try:
+            return all(a <= b for a, b in zip(self.labels, self.labels[1:]))
+        except TypeError:
+            return Opaque("is_monotonic_increasing")
 
     def __repr__(self):
         return "<index>"
@@ -743,7 +778,15 @@ def load_subscript(it, obj, k):
                 raise Raised("KeyError", k)
             return _col(obj, k)
         if isinstance(k, (list, tuple)):
-            return DF({c: obj.cols[c] for c in k}, obj.n, obj.index)
+            missing = [c for c in k if c not in obj.cols]
+            if missing:
+                raise Raised("KeyError", f"{missing} not in index")
+            r = DF({c: obj.cols[c] for c in k}, obj.n, obj.index)
+            if obj.exact:
+                r.exact = True
+            if obj.labels is not None:
+                r.labels = list(obj.labels)
+            return r
         raise Undecided(f"DataFrame getitem {k!r}")
     if isinstance(obj, Vec):
         if hasattr(k, "as_mask"):
@@ -890,6 +933,8 @@ def store_subscript(it, obj, k, v, aug=False):
         n = obj.n
         if isinstance(mask, IndexVals) and mask.labels is None and mask.n == n and getattr(mask, "kind", obj.index) == obj.index:
             mask = None                                   # .loc[<the table's own index>, col]: every row
+        if isinstance(mask, LabelSel):
+            mask = mask.as_row_mask(n, obj.index, f"store into column `{col}`")
         if isinstance(mask, IndexVals) and mask.labels is not None:
             lab = Vec(list(mask.labels))
             lab.exact = True
@@ -1007,6 +1052,10 @@ def value_attr(it, obj, attr):
             if obj.labels is not None and len(obj.labels) == len(obj.v):
                 ix = IndexVals(len(obj.v), list(obj.labels))
                 ix.kind = obj.aligned if isinstance(obj.aligned, str) else "range" if obj.fresh else "any"
+                return ix
+            if obj.fresh or isinstance(obj.aligned, str):
+                ix = IndexVals(len(obj.v))                   # labels not literal: the index of the table the Series was derived from
+                ix.kind = "range" if obj.fresh else obj.aligned
                 return ix
             return Opaque("index")
         if attr == "size":
@@ -1282,6 +1331,10 @@ def vec_method(it, obj, name, args, kw):
         vals = [T(x) for x in obj.v if not is_nan(x)]
         if len(vals) == 1:
             return vals[0]
+        if vals and all(v.is_const() for v in vals):
+            return Term.const((max if name == "max" else min)(v.cval() for v in vals))
+        if vals and all(same(v, vals[0]) for v in vals[1:]):
+            return vals[0]
         return fatom("v" + name, vals)
     if name == "median":
         vals = [T(x) for x in obj.v if not is_nan(x)]
@@ -1373,10 +1426,11 @@ def vec_method(it, obj, name, args, kw):
                 return getattr(x, name)(*args)
             raise Undecided(f".str.{name} on abstract value")
         return lift1(sm, obj)
-    if name == "diff" and not args and not kw and obj.exact and _lits(obj.v) is not None:
-        lv = _lits(obj.v)
-        r = Vec([None] + [b - a for a, b in zip(lv, lv[1:])], fresh=obj.fresh, aligned=obj.aligned)
-        r.exact = True
+    if name == "diff" and not args and not kw and obj.exact and _lits([x for x in obj.v if x is not None]) is not None:
+        # literal numbers, possibly with missing values: a difference involving a missing value is missing
+        lv = [None if x is None else _lits([x])[0] for x in obj.v]
+        r = Vec(([None] + [None if (a is None or b is None) else b - a for a, b in zip(lv, lv[1:])])[:len(lv)], fresh=obj.fresh, aligned=obj.aligned)
+        r.exact, r.labels = True, obj.labels
         return r
     if name in ("apply", "map"):
         f = args[0]
@@ -1426,6 +1480,15 @@ def vec_method(it, obj, name, args, kw):
         if obj.labels is not None:
             r.labels = list(obj.labels[sl])
         return r
+    if name in ("ne", "eq", "lt", "le", "gt", "ge") and len(args) == 1 and not kw:
+        # element-wise comparison methods: a missing value compares unequal to everything (itself included), like the operators
+        opn = {"ne": ast.NotEq, "eq": ast.Eq, "lt": ast.Lt, "le": ast.LtE, "gt": ast.Gt, "ge": ast.GtE}[name]()
+
+        def cmp1(a, b):
+            if is_nan(a) or is_nan(b):
+                return name == "ne"
+            return ai.compare(opn, a, b)
+        return lift2(cmp1, obj, args[0])
     if name == "shift" and obj.exact and not kw and (not args or (isinstance(args[0], int) and not isinstance(args[0], bool) and args[0] >= 0)):
         k = args[0] if args else 1
         r = Vec(([None] * k + list(obj.v))[:len(obj.v)], fresh=obj.fresh, aligned=obj.aligned)
@@ -1790,6 +1853,15 @@ def ext_call(it, dotted, args, kw):
                 return IndexVals(len(items))                # labels not literal: an index of unknown labels
             labels.append(x)
         return IndexVals(len(items), labels)
+    if name == "pd.MultiIndex.from_frame" and len(args) == 1 and isinstance(args[0], DF) and not kw:
+        d = args[0]
+        names = [c for c in d.cols if not c.startswith("__")]
+        cols = [list(d.cols[c].v) if all(isinstance(x, str) for x in d.cols[c].v) else _lits(d.cols[c].v) for c in names]
+        if not d.exact or any(c is None for c in cols):
+            return Opaque("pd.MultiIndex.from_frame")
+        ix = IndexVals(d.n, [tuple(c[i] for c in cols) for i in range(d.n)])          # one tuple label per row; compared lexicographically (strings as strings)
+        ix.kind = "any"
+        return ix
     if name == "pd.unique" and len(args) == 1 and not kw:
         a0 = args[0]
         if isinstance(a0, (list, tuple)):
